@@ -138,6 +138,11 @@ func (w *world) fullMux(ns string, cb int) *mux.ServeMux {
 		HandleInvite:       func(muc.Invitation) { w.calls++ },
 		HandleUserPresence: func(stanza.Presence, muc.Item) { w.calls++ },
 	}
+	if cb == 2 {
+		// an application that does not care: the optional callbacks are absent
+		w.recH = &receipts.Handler{}
+		w.mucC = &muc.Client{}
+	}
 	innerMux := mux.New(ns, ping.Handle(), mux.Feature(bookmarks.Handler{}))
 	return mux.New(ns,
 		ibb.Handle(w.ibbH),
